@@ -87,7 +87,7 @@ def run(ctx):
     for d in directed:
         rid = max([m[1] for m in d if m[0] in ('semtok', 'req')] + [0]) + 1
         cases.append({'history': d + [('shutdown', rid), ('exit',)], 'kinds': [m[0] for m in d], 'directed': True})
-    n = 120 if ctx.quick() else 3000
+    n = 120 if ctx.quick() else 20000
     for i in range(n):
         ln = rng.choice([1, 2, 3, 5, 8, 13, 21, 40, 60])
         h, kinds = gen_history(rng, ln)
